@@ -9,6 +9,6 @@ CONSTANTS
   NABad = {"none", "sig", "wrongkey", "alias", "tschg", "extra", "features", "addr", "color"}
   CUFields = {"ok", "nomaxflag", "maxzero", "maxltmin", "disabled", "capeq", "capplus1", "capplus500", "capplus999", "capplus1000", "maxgtcap"}
   NAFields = {"ok", "twodns"}
-  Funds = {"ok", "noblock", "noout", "wrongkeys", "halfwrongkeys", "spent"}
+  Funds = {"ok", "noblock", "nohash", "noout", "wrongkeys", "halfwrongkeys", "spent", "hashfault", "blockfault", "utxofault", "utxonotfound"}
   Signers = {"n1", "n2", "x"}
 CHECK_DEADLOCK FALSE
